@@ -69,6 +69,7 @@ float Decoder::flt()
 
 void Decoder::read(std::string &v)
 {
+   need(sizeof(uint32_t));
    auto len = u32();
    need(len);
    v.resize(len);
@@ -78,12 +79,14 @@ void Decoder::read(std::string &v)
 
 void Decoder::read(uint8_t *s, size_t n)
 {
+    if (n == 0) return; // s may be null for an empty destination
     std::memcpy(s, cur_, n);
     cur_ += n;
 }
 
 void Decoder::read(char *s, size_t n)
 {
+    if (n == 0) return;
     std::memcpy(s, cur_, n);
     cur_ += n;
 }
